@@ -114,13 +114,45 @@ func orderAndCopies(e *Env) {
 	}
 	early := g.W(6, 2, 2) // 0 none, 1 Close from a task at a random point, 2 server EOF part-way
 	cutAt := g.Intn(n + 1)
+	// after an early end the same client may connect again: nothing of the first
+	// connection may be delivered once its DISCONNECTED has been
+	second := early != 0 && g.Bool()
+	n2 := 0
+	if second {
+		n2 = g.Range(1, 30)
+		for j := 0; j < n2; j++ {
+			evs = append(evs, mkEvent(g, n+j, mixCase(g, verbs[g.Intn(len(verbs))]), g.Bool(), false))
+		}
+	}
+	sent2 := false
 	s := startSession(e, ClientOpts{Nick: "me", Flood: true, Track: g.Pct(30), PingFreq: []time.Duration{0, 3 * time.Second}[g.Intn(2)]},
 		func(l *simnet.Link) { l.ChunkMode = g.Intn(4); l.Window = []int{0, 0, 0, 16, 64, 300}[g.Intn(6)] })
 	// replace the default scripted server: registration, then the stream with
 	// the welcome somewhere inside it
 	causeBegun := false
 	allSent := false
+	dialNo := 0
 	e.OnDial = func(l *simnet.Link) {
+		dialNo++
+		if dialNo == 2 {
+			e.S.Spawn("server2", func() {
+				if _, ok := Registration(l, time.Hour); !ok {
+					return
+				}
+				l.SendLine(":irc.sim 001 me2 :Welcome back me2!i@h.sim")
+				for j := 0; j < n2; j++ {
+					evs[n+j].at = e.S.Stamp()
+					l.SendLine(evs[n+j].wire)
+				}
+				sent2 = true
+				for {
+					if _, ok := l.RecvLine(); !ok {
+						return
+					}
+				}
+			})
+			return
+		}
 		s.l = l
 		e.S.Spawn("server", func() {
 			if _, ok := Registration(l, time.Hour); !ok {
@@ -272,6 +304,17 @@ func orderAndCopies(e *Env) {
 	} else {
 		simrt.BlockFor("dispatch", "DISCONNECTED", time.Hour, func() bool { return len(discEnter) > 0 })
 		simrt.Settle(10 * time.Second)
+		if second && len(discEnter) > 0 {
+			e.S.Count("fault.reconnect-after-early-end")
+			if err := s.c.Connect(); err != nil {
+				e.Violation("harness-connect", "reconnect failed: %v", err)
+				return
+			}
+			simrt.BlockFor("dispatch", "second stream sent", time.Hour, func() bool { return sent2 })
+			simrt.Settle(time.Duration(n2)*3*time.Second + 30*time.Second)
+			s.c.Close()
+			simrt.Settle(10 * time.Second)
+		}
 	}
 	if c15 {
 		return
@@ -342,8 +385,9 @@ func orderAndCopies(e *Env) {
 	}
 	// CONNECTED: after every line before the welcome, before every line after it,
 	// with the welcome applied
-	if len(connected) > 0 {
-		for _, cr := range connected {
+	if len(connected) > 0 && (len(discEnter) == 0 || connected[0].enter < discEnter[0]) {
+		// (a CONNECTED recorded after the first DISCONNECTED belongs to the second connection)
+		for _, cr := range connected[:1] {
 			e.Check()
 			if cr.nick != "me2" {
 				e.Violation("connected-before-welcome-applied", "a CONNECTED handler saw Me().Nick=%q, the welcome said me2", cr.nick)
@@ -351,6 +395,9 @@ func orderAndCopies(e *Env) {
 			}
 			for _, ln := range lines {
 				for _, r := range byLine[ln] {
+					if ln >= n {
+						continue // the second connection's lines
+					}
 					if ln < welcomeAt && r.exit > cr.enter {
 						e.Violation("connected-order", "CONNECTED was delivered (event %d) before a foreground handler of earlier line %d finished (event %d)", cr.enter, ln, r.exit)
 						return
@@ -367,10 +414,23 @@ func orderAndCopies(e *Env) {
 		return
 	}
 	// DISCONNECTED after every foreground invocation finished
-	for _, d := range discEnter {
+	for k, d := range discEnter {
+		// connection k+1's lines: the first n (first connection) or the rest
+		var last uint64
+		lastLn := -1
+		for _, ln := range lines {
+			if (k == 0) != (ln < n) {
+				continue
+			}
+			for _, r := range byLine[ln] {
+				if r.exit > last {
+					last, lastLn = r.exit, ln
+				}
+			}
+		}
 		e.Check()
-		if d < maxExit {
-			e.Violation("disconnected-early", "DISCONNECTED was delivered (event %d) before a foreground handler of this connection's lines had finished (event %d)", d, maxExit)
+		if d < last {
+			e.Violation("disconnected-early", "DISCONNECTED of connection %d was delivered (event %d) before a foreground handler of that connection's line %d had finished (event %d)", k+1, d, lastLn, last)
 			return
 		}
 	}
